@@ -366,6 +366,11 @@ struct TaskCtx<'w> {
 fn exec_op<'w>(sc: &Scen, w: &'w World, table: &'w MetaTable<dyn HObj>, bad: &'w MetaTable<dyn BadObj>, shm: &Mutex<Shared>, tc: &mut TaskCtx<'w>, t: usize, step: usize, op: &Op) {
     let order = reg_order(&sc.reg);
     let mut sh = shm.lock().unwrap();
+    if sh.out.iter().any(|v| v.class == "cell-state") {
+        // the borrow flags are already known to be wrong: further operations (and unwinding
+        // through guards whose release would panic) could only abort the process
+        return;
+    }
     sh.events.push((t, step, 0));
     match *op {
         Op::Yield => {}
@@ -1376,15 +1381,7 @@ pub mod zst {
                 for id in 0..3u8 {
                     checks += 1;
                     let cell = unsafe { w.try_fetch_internal(rid(zst, id)) }.expect("resource present");
-                    let real = if let Ok(x) = cell.try_borrow_mut() {
-                        drop(x);
-                        Cell::Free
-                    } else if let Ok(x) = cell.try_borrow() {
-                        drop(x);
-                        Cell::Shared
-                    } else {
-                        Cell::Excl
-                    };
+                    let real = crate::res::classify_cell(cell);
                     let want = if excl[zst as usize][id as usize] {
                         Cell::Excl
                     } else if shared[zst as usize][id as usize] > 0 {
